@@ -110,13 +110,57 @@ Fixpoint render_value (v : value) : text :=
   end.
 
 (* ------------------------------------------------------------------------------------------------ *)
+(* sizes: len() of a Go string is its UTF-8 length; types.spendSize is what a value costs to write as text or as JSON *)
+
+Definition rune_bytes (c : N) : Z :=
+  if (c <? 128)%N then 1%Z else if (c <? 2048)%N then 2%Z else if (c <? 65536)%N then 3%Z else 4%Z.
+Definition byte_len (s : text) : Z := fold_right (fun c n => (rune_bytes c + n)%Z) 0%Z s.
+
+(* types.MaxTextLength: the longest text that &, replace and join build *)
+Definition max_text_length : Z := 1000000%Z.
+
+(* big.Int.BitLen of the coefficient *)
+Definition bit_len (m : Z) : Z := if (m =? 0)%Z then 0%Z else (Z.log2 (Z.abs m) + 1)%Z.
+
+(* types.spendSize(x, asJSON, indent = 0, depth, budget): every value costs 1 plus the number of arrays and objects it
+   is nested in; a text its bytes, a number the digits of its coefficient (a third of its bits) and its exponent, a
+   property its name. An object with a default is written as that default, and as JSON also with its properties.
+   The walk in the code stops as soon as the budget is negative; all the costs are non-negative, so its verdict is
+   "the total is at most the budget". *)
+Fixpoint value_cost (as_json : bool) (depth : Z) (v : value) : Z :=
+  (1 + depth +
+   match v with
+   | VText s => byte_len s
+   | VNum d => bit_len (mant d) / 3 + Z.abs (dexp d)
+   | VArray items =>
+       (fix go (l : list value) : Z :=
+          match l with [] => 0 | x :: r => value_cost as_json (depth + 1) x + go r end) items
+   | VObject def props =>
+       match def with Some d => value_cost as_json depth d | None => 0 end +
+       match def, as_json with
+       | Some _, false => 0
+       | _, _ => (fix go (l : list (text * value)) : Z :=
+                    match l with
+                    | [] => 0
+                    | (k, x) :: r => byte_len k + value_cost as_json (depth + 1) x + go r
+                    end) props
+       end
+   | _ => 0
+   end)%Z.
+
+(* types.MaxRenderSize, CheckRenderSize *)
+Definition max_render_size : Z := 1000000%Z.
+Definition too_large (as_json : bool) (v : value) : bool := (max_render_size <? value_cost as_json 0 v)%Z.
+
+(* ------------------------------------------------------------------------------------------------ *)
 (* conversions *)
 
+(* ToXText: nil is the empty text, an error is returned, a value too large to write is an error, else Render *)
 Definition to_text (v : value) : conv text :=
   match v with
   | VNil => Ok []
   | VErr => Bad
-  | _ => Ok (render_value v)
+  | _ => if too_large false v then Bad else Ok (render_value v)
   end.
 
 Fixpoint to_number (v : value) : conv dec :=
